@@ -369,7 +369,8 @@ func (olds Segment) Rename(news Segment) error {
 
 func (olds Segment) Override(news Segment) error {
 	// remove index segment so we don't have invalid index
-	if err := os.Remove(news.Index); err != nil {
+	// (it might be missing already: index files are rebuilt lazily)
+	if err := os.Remove(news.Index); err != nil && !errors.Is(err, os.ErrNotExist) {
 		return fmt.Errorf("override index delete: %w", err)
 	}
 
@@ -388,7 +389,8 @@ func (olds Segment) Override(news Segment) error {
 }
 
 func (s Segment) Remove() error {
-	if err := os.Remove(s.Index); err != nil {
+	// the index might be missing already: index files are rebuilt lazily
+	if err := os.Remove(s.Index); err != nil && !errors.Is(err, os.ErrNotExist) {
 		return fmt.Errorf("remove index delete: %w", err)
 	}
 	if err := os.Remove(s.Log); err != nil {
